@@ -199,6 +199,7 @@ type Job struct {
 	Unwind     int     `json:"unwind"`
 	MaxPreempt int     `json:"max_preempt"`
 	MaxDeviate int     `json:"max_deviate"`
+	HangBound  int     `json:"hang_bound"` // >0: loops iterating more often than this are reported as non-termination
 	MaxValues  int     `json:"max_values"` // values tried when a symbolic length/index is concretised (default 96)
 	TimeoutMs  int     `json:"timeout_ms"`
 	Solver     string  `json:"solver"`
@@ -287,6 +288,7 @@ func (in *Interp) runJob(job Job) (res *JobResult) {
 	in.unwind = job.Unwind
 	in.maxPreempt = job.MaxPreempt
 	in.maxDeviate = job.MaxDeviate
+	in.hangBound = job.HangBound
 	in.maxValues = maxConcretize
 	if job.MaxValues > 0 {
 		in.maxValues = job.MaxValues
